@@ -48,7 +48,8 @@ Judge(e) ==
                 LET exp == AfterRemoveAll(W, e.list, e.qry) IN
                 /\ Report(e.ret = want, e, "C18.removed", <<e.ret, want>>)
                 /\ Report(SameWorld(e.after, exp), e, "C18.removeall", 0)
-                /\ Report(\A t \in DOMAIN e.mem : e.mem[t] = (t \notin Gone(W, e.list, e.qry)), e, "C18.members", 0)
+                \* (tasks numbered above W.nm are outside the WBS from the start: linked to members, never listed)
+                /\ Report(\A t \in DOMAIN e.mem : e.mem[t] = (t <= W.nm /\ t \notin Gone(W, e.list, e.qry)), e, "C18.members", 0)
 
 Init == k = 1
 Next == /\ k <= Len(Batch)
